@@ -295,6 +295,9 @@ func c16Run(c *fw.Ctx) {
 			if l.Cmd.InList {
 				c.Count("lines_in_list_body", 1)
 			}
+			if l.Cmd.Twin != nil {
+				c.Count("lines_of_mid_rule_actions_with_identical_text", 1)
+			}
 			if l.Cmd.Marked {
 				c.Count("lines_in_rules_with_state_markers", 1)
 			}
@@ -324,7 +327,7 @@ func c16Run(c *fw.Ctx) {
 func init() {
 	fw.Register(&fw.Check{
 		ID:          "C16",
-		Rule:        "each case: random grammars (alternatives guarded by distinct terminals; optional symbols and groups, nested choices, +/* lists with and without separators, nullable nonterminals; aliases on symbols, groups and lists; duplicate symbol names; optional lists without alias, mostly followed directly by a mid-rule action; state markers in about a third of the rules, behind the last mid-rule action; in a third of the grammars a template flag F with nonterminals N<F>, [F]/[!F] alternatives and references N<+F>/N<~F>) in which every terminal carries a value set by a lexer action (its start offset as int, or a string made from it) and every rule ends with an action assigning $$ a tagged value built from child references; end-of-rule, mid-rule (also inside optional parts, nested alternatives and list bodies, before and after other mid-rule actions, never adjacent to another action in any expansion, since the compiler merges adjacent actions into '{..}{..}' which is not valid Go) actions log through vlog the reference forms $alias/${alias}, $sym, ${sym#N}, $N, ${N.offset}, ${N.endoffset} (also for list positions), $$, ${x.offset}, ${x.endoffset} (single symbols, multi-symbol group aliases, list aliases), ${first().offset}, ${last().endoffset}, ${left().offset}, ${left().endoffset}. Not generated: values of lists, $$/left() inside mid-rule actions or list bodies, first() in list bodies or after an action that may become the first right-hand-side symbol. Grammars the compiler rejects (conflicts) or the generator refuses (reference form not accepted) are counted, not failed. Sentences are sampled top-down with the derivation, rendered with irregular whitespace, and the expected ordered log (value/position of the named symbol in this expansion, <nil> / -1 when absent; an empty nonterminal lies at the start of the following token) and result value must equal the parser's. Grammar non-trivial/distinct: >=20 log lines compared over >=5 reference forms",
+		Rule:        "each case: random grammars (alternatives guarded by distinct terminals; optional symbols and groups, nested choices, +/* lists with and without separators, nullable nonterminals; aliases on symbols, groups and lists; duplicate symbol names; optional lists without alias, mostly followed directly by a mid-rule action; state markers in about a third of the rules, behind the last mid-rule action; in 60% of the candidates a pair of rules whose mid-rule actions have byte-identical text (same label), the same stack layout and types but the aliases on swapped positions; in a third of the grammars a template flag F with nonterminals N<F>, [F]/[!F] alternatives and references N<+F>/N<~F>) in which every terminal carries a value set by a lexer action (its start offset as int, or a string made from it) and every rule ends with an action assigning $$ a tagged value built from child references; end-of-rule, mid-rule (also inside optional parts, nested alternatives and list bodies, before and after other mid-rule actions, never adjacent to another action in any expansion, since the compiler merges adjacent actions into '{..}{..}' which is not valid Go) actions log through vlog the reference forms $alias/${alias}, $sym, ${sym#N}, $N, ${N.offset}, ${N.endoffset} (also for list positions), $$, ${x.offset}, ${x.endoffset} (single symbols, multi-symbol group aliases, list aliases), ${first().offset}, ${last().endoffset}, ${left().offset}, ${left().endoffset}. Not generated: values of lists, $$/left() inside mid-rule actions or list bodies, first() in list bodies or after an action that may become the first right-hand-side symbol. Grammars the compiler rejects (conflicts) or the generator refuses (reference form not accepted) are counted, not failed. Sentences are sampled top-down with the derivation, rendered with irregular whitespace, and the expected ordered log (value/position of the named symbol in this expansion, <nil> / -1 when absent; an empty nonterminal lies at the start of the following token) and result value must equal the parser's. Grammar non-trivial/distinct: >=20 log lines compared over >=5 reference forms",
 		Assumptions: []string{"the generated lexer tokenizes space-separated literals correctly (C11)", "conflict-freeness taken from the compiler (C03), hence the sampled derivation is the unique one", "symbol ranges follow the first-to-last-symbol rule validated by C02"},
 		Cases: func(tier string) int {
 			if tier == "thorough" {
@@ -337,6 +340,6 @@ func init() {
 		CPUBudget:     900,
 		MinNontrivial: func(tier string) int { return 15 },
 		RequiredCounters: []string{"refs_compared", "absent_value_refs_compared", "absent_position_refs_compared", "lines_mid_rule", "lines_in_list_body",
-			"ref:$alias/present", "ref:$sym#N/present", "ref:$N/present", "ref:$N/absent", "ref:$$/present", "ref:${first().offset}/present", "ref:${last().endoffset}/present", "ref:${left().offset}/present", "ref:${group-alias.offset}/present", "ref:${list-alias.endoffset}/present", "ref:${N(list).offset}/present", "ref:${N(list).offset}/absent", "ref:${N.endoffset}/present", "lines_in_rules_with_state_markers", "grammars_with_template_flag"},
+			"ref:$alias/present", "ref:$sym#N/present", "ref:$N/present", "ref:$N/absent", "ref:$$/present", "ref:${first().offset}/present", "ref:${last().endoffset}/present", "ref:${left().offset}/present", "ref:${group-alias.offset}/present", "ref:${list-alias.endoffset}/present", "ref:${N(list).offset}/present", "ref:${N(list).offset}/absent", "ref:${N.endoffset}/present", "lines_in_rules_with_state_markers", "grammars_with_template_flag", "lines_of_mid_rule_actions_with_identical_text"},
 	})
 }
